@@ -69,7 +69,7 @@ def h_diffeq(ctx, cfg):
   order = max(exps_a)
   memkind = cfg["mem"]
   mlen = {"none": 0, "exact": order, "longer": order + 2, "tuple": order,
-          "gen": order + 1, "callable": order}[memkind]
+          "gen": order + 1, "callable": order, "stream": order, "endless-stream": order, "iterator": order + 1}[memkind]
   mem = ctx.reals("m", mlen)
   filt = _build(cfg["build"], b, a, exps_b, exps_a)
   asked = []
@@ -77,6 +77,11 @@ def h_diffeq(ctx, cfg):
   elif memkind in ("exact", "longer"): memory = list(mem)
   elif memkind == "tuple": memory = tuple(mem)
   elif memkind == "gen": memory = (v for v in mem)
+  elif memkind == "iterator": memory = iter(list(mem))
+  elif memkind in ("stream", "endless-stream"):
+    # a Stream is iterable AND callable: as a memory it is data (its items), not a function of the size
+    from audiolazy import Stream
+    memory = Stream(list(mem)) if memkind == "stream" else Stream(list(mem)).append(Stream(7))
   else:
     def memory(size):
       asked.append(size)
@@ -226,7 +231,7 @@ def tasks(tier, seed):
       if tier == "thorough" and nb + na >= 7 and mem not in ("none", "exact"): continue
       T.append(("h_diffeq", {"nb": nb, "na": na, "N": N, "mem": mem, "build": "lists"}))
   # other memory / build / input kinds on a mid-size shape
-  for mem in ("longer", "gen", "callable", "tuple"):
+  for mem in ("longer", "gen", "callable", "tuple", "stream", "endless-stream", "iterator"):
     T.append(("h_diffeq", {"nb": 2, "na": 3, "N": 3, "mem": mem, "build": "lists"}))
   for build in ("linear", "dicts", "zexpr"):
     T.append(("h_diffeq", {"nb": 2, "na": 2, "N": 3, "mem": "exact", "build": build, "seq": "gen"}))
